@@ -201,6 +201,14 @@ func (s *Shredder) ShredRow(root parquet.Node, v reflect.Value) string {
 	return sb.String()
 }
 
+// ID is the number the shredder uses for a leaf value (canonical text) in its Val / stream texts.
+func (s *Shredder) ID(key string) int {
+	if s.ids == nil {
+		s.ids = map[string]int{}
+	}
+	return s.id(key)
+}
+
 func (s *Shredder) id(key string) int {
 	if i, ok := s.ids[key]; ok {
 		return i
